@@ -198,9 +198,12 @@ impl SimFS {
     pub fn new<T: FileSystem>(inner: T, node: u16, ctl: Arc<Ctl>) -> SimFS {
         SimFS { inner: Box::new(inner), node, ctl }
     }
-    fn pre(&self, label: &'static str) -> VfsResult<()> {
+    fn pre(&self, label: &'static str, mutating: bool) -> VfsResult<()> {
         self.ctl.yield_sched(label);
         if let Some(kind) = self.ctl.fault_check(self.node, false) {
+            // a not-found failure is injected into MUTATING calls only: from an observer it
+            // would be an answer ("absent"), not a failure
+            let kind = if kind == io::ErrorKind::NotFound && !mutating { io::ErrorKind::Other } else { kind };
             return Err(VfsError::from(injected(kind)));
         }
         Ok(())
@@ -220,7 +223,7 @@ impl SimFS {
 
 macro_rules! fwd {
     ($self:ident, $label:literal, $path:expr, $p2:expr, $mutating:expr, $call:expr) => {{
-        let r = match $self.pre($label) {
+        let r = match $self.pre($label, $mutating) {
             Ok(()) => $call,
             Err(e) => Err(e),
         };
@@ -324,7 +327,7 @@ impl SimRead {
 impl Read for SimRead {
     fn read(&mut self, buf: &mut [u8]) -> io::Result<usize> {
         self.ctl.yield_sched("h.read");
-        if let Some(kind) = self.ctl.fault_check(self.node, true) {
+        if let Some(kind) = self.ctl.fault_check(self.node, true).map(|k| if k == io::ErrorKind::NotFound { io::ErrorKind::Other } else { k }) {
             self.rec("h.read", false);
             return Err(injected(kind));
         }
@@ -355,7 +358,7 @@ impl Read for SimRead {
 impl Seek for SimRead {
     fn seek(&mut self, pos: SeekFrom) -> io::Result<u64> {
         self.ctl.yield_sched("h.seek");
-        if let Some(kind) = self.ctl.fault_check(self.node, true) {
+        if let Some(kind) = self.ctl.fault_check(self.node, true).map(|k| if k == io::ErrorKind::NotFound { io::ErrorKind::Other } else { k }) {
             self.rec("h.seek", false);
             return Err(injected(kind));
         }
@@ -389,7 +392,7 @@ impl SimWrite {
 impl Write for SimWrite {
     fn write(&mut self, buf: &[u8]) -> io::Result<usize> {
         self.ctl.yield_sched("h.write");
-        if let Some(kind) = self.ctl.fault_check(self.node, true) {
+        if let Some(kind) = self.ctl.fault_check(self.node, true).map(|k| if k == io::ErrorKind::NotFound { io::ErrorKind::Other } else { k }) {
             self.rec("h.write", false);
             return Err(injected(kind));
         }
@@ -417,7 +420,7 @@ impl Write for SimWrite {
     }
     fn flush(&mut self) -> io::Result<()> {
         self.ctl.yield_sched("h.flush");
-        if let Some(kind) = self.ctl.fault_check(self.node, true) {
+        if let Some(kind) = self.ctl.fault_check(self.node, true).map(|k| if k == io::ErrorKind::NotFound { io::ErrorKind::Other } else { k }) {
             self.rec("h.flush", false);
             return Err(injected(kind));
         }
@@ -430,7 +433,7 @@ impl Write for SimWrite {
 impl Seek for SimWrite {
     fn seek(&mut self, pos: SeekFrom) -> io::Result<u64> {
         self.ctl.yield_sched("h.wseek");
-        if let Some(kind) = self.ctl.fault_check(self.node, true) {
+        if let Some(kind) = self.ctl.fault_check(self.node, true).map(|k| if k == io::ErrorKind::NotFound { io::ErrorKind::Other } else { k }) {
             self.rec("h.wseek", false);
             return Err(injected(kind));
         }
